@@ -179,6 +179,42 @@ def h_recv_boundary(ctx, extra):
   ctx.witness('done')
 
 
+def h_large(ctx, side, total):
+  """a maximal-size message (length field 0x7fff / 0x8000 / 0xffff) between two small ones, delivered in recv-sized pieces"""
+  core = env.get_core()
+  of01 = ctx.pox('pox.openflow.of_01'); of = ctx.pox('pox.openflow.libopenflow_01')
+  xid = ctx.int('xid', 0, 0xffffffff)
+  edge = ctx.bytes('edge', 6)
+  n = total - 8
+  body = list(edge[:3]) + [(k * 13 + 5) & 0xff for k in range(n - 6)] + list(edge[3:])
+  m0 = hdr(0, 8, 5); m1 = hdr(2, total, xid) + body; m2 = hdr(2, 8, 9)
+  msgs = [m0, m1, m2]
+  stream = env.tobytes(ctx, m0 + m1 + m2)
+  delivered = []
+  if side == 'controller':
+    of01.deferredSender = Dummy()
+    sock = env.FakeSocket(eof=False); con = of01.Connection(sock)
+    con.handlers = [(lambda c, msg, t=t: delivered.append((t, msg.pack()))) for t in range(len(con.handlers))]
+    sock.feed(stream)
+    rounds = 0
+    while sock.chunks and rounds < 80:
+      ctx.check('read ok', con.read() is True); rounds += 1
+    ctx.check('residual empty', len(con.buf) == 0)
+  else:
+    iow = ctx.pox('pox.lib.ioworker'); sw = ctx.pox('pox.datapaths.switch')
+    w = iow.IOWorker(); w.socket = env.FakeSocket(eof=False)
+    c = sw.OFConnection(w)
+    c.set_message_handler(lambda con, msg: delivered.append((msg.header_type, msg.pack())))
+    for k in range(0, len(stream), 8192): w._push_receive_data(stream[k:k + 8192])
+    ctx.check('residual empty', len(w.receive_buf) == 0)
+    ctx.check('nothing sent back, not closed', not w.closed and not w._shutdown_send and len(w.send_buf) == 0)
+  ctx.check('all delivered once, in order', len(delivered) == 3)
+  for (t, packed), m in zip(delivered, msgs):
+    ctx.check('type', t == m[1])
+    ctx.check('bytes identical', ctx.Eq(packed, env.tobytes(ctx, m)))
+  ctx.witness('done')
+
+
 CTL_KINDS = ['hello', 'echo2', 'reply0', 'error1', 'barrier_rep', 'get_config_reply', 'packet_in3', 'features_reply']
 SW_KINDS = ['hello', 'echo2', 'features_req', 'set_config', 'barrier_req', 'packet_out2', 'flow_mod', 'port_mod', 'error0']
 
@@ -205,12 +241,15 @@ def obligations(tier):
     ctl.append(dict(kinds=['echo2', 'hello', 'error1'], cuts='sym', ncuts=3))
     swc.append(dict(kinds=['echo2', 'hello', 'set_config'], cuts='sym', ncuts=3))
   BOUNDS[tier] = dict(messages_per_stream="2..3", cuts="every 1-cut; every 2-cut (quick: two streams per side, thorough: all); 1-byte dribble; 3 cuts on one stream (thorough)",
-                      controller_types=CTL_KINDS, switch_types=SW_KINDS, recv_boundary="echo request of 2048-8+{0,1,2} body bytes followed by hello")
+                      controller_types=CTL_KINDS, switch_types=SW_KINDS, recv_boundary="echo request of 2048-8+{0,1,2} body bytes followed by hello",
+                      large="hello, echo request of total length 0x7fff / 0x8000 / 0xffff (symbolic xid and edge bytes), echo request; both sides")
   return [
     Obligation('O1_controller', h_controller, ctl, witnesses=('done',), max_decisions=50000, conc_cap=400,
                desc='Connection.read: delivered sequence == sent sequence for every segmentation'),
     Obligation('O2_switch', h_switch, swc, witnesses=('done',), max_decisions=50000, conc_cap=400,
                desc='IOWorker + OFConnection.read: delivered sequence == sent sequence for every segmentation'),
+    Obligation('O4_large', h_large, [dict(side=sd, total=t) for sd in ('controller', 'switch') for t in (0x7fff, 0x8000, 0xffff)], witnesses=('done',), max_decisions=50000,
+               desc='messages with length field 0x7fff / 0x8000 / 0xffff are framed like any other, on both sides'),
     Obligation('O3_recv2048', h_recv_boundary, [dict(extra=e) for e in (0, 1, 2)], witnesses=('done',), max_decisions=50000,
                desc="controller recv(2048) boundary: a message longer than one recv() is reassembled"),
   ]
